@@ -34,6 +34,14 @@
 (* understands (Runnable; spellings of enumerated values in another        *)
 (* letter case are either refused or understood).                          *)
 (*                                                                         *)
+(* Where the file comes from is a dimension of its own: -cfg names a local  *)
+(* path or an http(s) URL which Load fetches itself.  A fetch can fail or   *)
+(* break off: not found, server error, a body that ends before its         *)
+(* announced length, a connection reset in the middle.  Load then returns  *)
+(* an error - never the configuration of the part that happened to arrive  *)
+(* (Fetch, NeverPartial); a complete transfer means what the same file at  *)
+(* a path means.                                                           *)
+(*                                                                         *)
 (* Load is modelled in the shape of config.Load: the command line is       *)
 (* parsed (which also yields the path of the properties file), the file is *)
 (* read, then for an option not yet set the environment is consulted with  *)
@@ -66,10 +74,13 @@ VARIABLES
     junk,     \* SUBSET JunkClasses            : other entries present in the environment block
     fstate,   \* "absent" | "ok" | "junk"      : the properties file named by -cfg
     pc, val, setby, result,
+    fetch,    \* how the file named by -cfg is obtained: "path" or the course of the transfer from a URL
     nbr,      \* what is said about the neighbour in this Load (NoNbr: nothing)
     nbrset,   \* the neighbour took its value
     hist      \* the completed earlier Loads of this process: <<[given, value, result], ...>>
-vars == <<given, spell, junk, fstate, pc, val, setby, result, nbr, nbrset, hist>>
+vars == <<given, spell, junk, fstate, pc, val, setby, result, fetch, nbr, nbrset, hist>>
+Transfers == {"complete", "truncated", "reset", "notfound", "servererror"}
+Broken == Transfers \ {"complete"}
 NoNbr == [side |-> "-", src |-> "-", form |-> "-"]
 
 -----------------------------------------------------------------------------
@@ -93,7 +104,10 @@ Init == /\ given \in [Sources -> Vals \cup {None}]
         /\ (given["file"] # None) => fstate = "ok"       \* a file that sets the option is a readable file
         /\ pc = "cmdline" /\ val = Default /\ setby = Default /\ result = None
         /\ hist = <<>>
+        /\ fetch \in {"path"} \cup Transfers
+        /\ fetch # "path" => (fstate = "ok" /\ junk = {} /\ \A s \in EnvSources : spell[s] = Canonical)
         /\ nbr \in NbrSays \cup {NoNbr} /\ nbrset = FALSE
+        /\ (nbr # NoNbr => fetch = "path")
         /\ nbr # NoNbr => /\ junk = {} /\ fstate # "junk" /\ \A s \in EnvSources : spell[s] = Canonical
                           /\ nbr.src = "file" => fstate = "ok"
 
@@ -103,15 +117,18 @@ Take(s) == /\ val' = given[s]
 ParseCmdline == /\ pc = "cmdline"
                 /\ IF given["cmd"] # None THEN Take("cmd") ELSE UNCHANGED <<val, setby>>
                 /\ pc' = "readfile"
-                /\ UNCHANGED <<given, spell, junk, fstate, result, nbr, nbrset, hist>>
+                /\ UNCHANGED <<given, spell, junk, fstate, result, fetch, nbr, nbrset, hist>>
 
 \* a junk file is either refused by the properties reader (error) or read as a file
 \* that says nothing about the option
 ReadFile == /\ pc = "readfile"
             /\ \/ /\ fstate = "junk"
                   /\ result' = "error" /\ pc' = "done"
-               \/ /\ pc' = "nbefore" /\ UNCHANGED result
-            /\ UNCHANGED <<given, spell, junk, fstate, val, setby, nbr, nbrset, hist>>
+               \/ /\ fetch \in Broken           \* the transfer failed or broke off: an error, whatever arrived
+                  /\ result' = "error" /\ pc' = "done"
+               \/ /\ fetch \notin Broken
+                  /\ pc' = "nbefore" /\ UNCHANGED result
+            /\ UNCHANGED <<given, spell, junk, fstate, val, setby, fetch, nbr, nbrset, hist>>
 
 ApplyEnv == /\ pc = "env"
             /\ IF setby # Default THEN UNCHANGED <<val, setby>>
@@ -119,24 +136,24 @@ ApplyEnv == /\ pc = "env"
                ELSE IF EnvHas("env")  THEN val' = EnvValue("env")  /\ setby' = "env"
                ELSE UNCHANGED <<val, setby>>
             /\ pc' = "file"
-            /\ UNCHANGED <<given, spell, junk, fstate, result, nbr, nbrset, hist>>
+            /\ UNCHANGED <<given, spell, junk, fstate, result, fetch, nbr, nbrset, hist>>
 
 ApplyFile == /\ pc = "file"
              /\ IF setby = Default /\ given["file"] # None THEN Take("file") ELSE UNCHANGED <<val, setby>>
              /\ pc' = "nafter"
-             /\ UNCHANGED <<given, spell, junk, fstate, result, nbr, nbrset, hist>>
+             /\ UNCHANGED <<given, spell, junk, fstate, result, fetch, nbr, nbrset, hist>>
 
 \* the walk reaches the neighbour: a well-formed value is taken, an ill-formed one is ignored -
 \* and in both cases the walk goes on to the next option
 ScanNeighbour(side) == /\ pc = "n" \o side
                        /\ nbrset' = (nbrset \/ (nbr.side = side /\ nbr.form = "ok"))
                        /\ pc' = IF side = "before" THEN "env" ELSE "validate"
-                       /\ UNCHANGED <<given, spell, junk, fstate, val, setby, result, nbr, hist>>
+                       /\ UNCHANGED <<given, spell, junk, fstate, val, setby, result, fetch, nbr, hist>>
 
 Validate == /\ pc = "validate"
             /\ result' = IF val \in Bad THEN "error" ELSE "cfg"
             /\ pc' = "done"
-            /\ UNCHANGED <<given, spell, junk, fstate, val, setby, nbr, nbrset, hist>>
+            /\ UNCHANGED <<given, spell, junk, fstate, val, setby, fetch, nbr, nbrset, hist>>
 
 Next == ParseCmdline \/ ReadFile \/ ScanNeighbour("before") \/ ApplyEnv \/ ApplyFile \/ ScanNeighbour("after") \/ Validate
 Spec == Init /\ [][Next]_vars /\ WF_vars(Next)
@@ -149,8 +166,8 @@ Again(g) == /\ pc = "done" /\ Len(hist) < MaxLoads - 1
             /\ fstate' = IF g["file"] # None THEN "ok" ELSE "absent"
             /\ pc' = "cmdline" /\ val' = Default /\ setby' = Default /\ result' = None
             /\ nbrset' = FALSE
-            /\ UNCHANGED <<spell, junk, nbr>>
-HistInit == /\ Init /\ nbr = NoNbr /\ given \in HistGivens /\ junk = {} /\ fstate = (IF given["file"] # None THEN "ok" ELSE "absent")
+            /\ UNCHANGED <<spell, junk, nbr, fetch>>
+HistInit == /\ Init /\ nbr = NoNbr /\ fetch = "path" /\ given \in HistGivens /\ junk = {} /\ fstate = (IF given["file"] # None THEN "ok" ELSE "absent")
             /\ \A s \in EnvSources : spell[s] = Canonical
 HistNext == Next \/ \E g \in HistGivens : Again(g)
 HistSpec == HistInit /\ [][HistNext]_vars
@@ -166,7 +183,8 @@ TwoOutcomes == pc = "done" => result \in {"cfg", "error"}
 \* the value in a returned configuration is the effective one, whatever the spelling / junk
 ResultIsEffective == (pc = "done" /\ result = "cfg") =>
                         /\ val = Effective(given) /\ setby = Winner(given) /\ val \notin Bad
-ErrorIsJustified == (pc = "done" /\ result = "error") => (fstate = "junk" \/ Effective(given) \in Bad)
+ErrorIsJustified == (pc = "done" /\ result = "error") => (fstate = "junk" \/ fetch \in Broken \/ Effective(given) \in Bad)
+NeverPartial == (pc = "done" /\ fetch \in Broken) => result = "error"
 BadIsRejected == (pc = "done" /\ fstate # "junk" /\ Effective(given) \in Bad) => result = "error"
 \* consequences spelled out the way the property statement does
 SingleSource == (pc = "done" /\ result = "cfg") =>
